@@ -155,6 +155,22 @@ def sock_cases(tier):
                 step = 1 if tier != 'quick' else 3
                 for k in range(1, len(raw), step):
                     out.append((tuple(pre), bl, eol, raw, k))
+    # volume: many header lines before the banner (long legal notices, tarpits), total sizes on both sides of the read-chunk multiples and of
+    # 16 KiB / 32 KiB / 64 KiB, delivered whole, in MSS-sized and odd segments, and with the final cut inside the banner line
+    bl = 'SSH-2.0-OpenSSH_8.9p1 Ubuntu-3ubuntu0.10'
+    for total in (2040, 2048, 2049, 4096, 8192, 16000, 16374, 16384, 16385, 16390, 20480, 32768, 32769, 40960, 65536, 65537):
+        for eol in ('\r\n', '\n'):
+            line = 'notice ' + 'x' * 70
+            n = max(1, total // (len(line) + len(eol)))
+            pre = [line] * n
+            pad = total - n * (len(line) + len(eol))
+            if pad > len(eol):
+                pre.append('y' * (pad - len(eol)))
+            raw = (''.join(l + eol for l in pre) + bl + eol).encode()
+            for seg in (None, ('seg', 1460), ('seg', 1000), ('seg', 4096), ('seg', 2048), ('seg', 333), ('cut', 9), ('cut', 1), ('cut', len(bl) - 1)):
+                if tier == 'quick' and total > 33000 and seg not in (None, ('cut', 9)):
+                    continue
+                out.append((('<%d header lines, %d bytes>' % (len(pre), total),), bl, eol, raw, seg))
     return out
 
 
@@ -163,7 +179,13 @@ def work_sock(chunk, st):
         abort = split == 'abort'
         if abort:
             split = None
-        chunks = [raw] if split is None else [raw[:split], raw[split:]]
+        if isinstance(split, tuple) and split[0] == 'seg':
+            chunks = [raw[i:i + split[1]] for i in range(0, len(raw), split[1])]
+        elif isinstance(split, tuple) and split[0] == 'cut':         # everything up to k bytes into the banner line, then the rest
+            k = raw.rindex(b'SSH-2.0-') + split[1]
+            chunks = [raw[:k], raw[k:]]
+        else:
+            chunks = [raw] if split is None else [raw[:split], raw[split:]]
         srv = RawServer(chunks)
         srv.then_abort = abort
         w = H.world_for(srv)
@@ -175,7 +197,7 @@ def work_sock(chunk, st):
         lines = [RB.decode_line(x) for x in raw.replace(b'\r\n', b'\n').split(b'\n')[:-1]]
         want, wheader = RB.scan(lines)
         st.execution(w, outcome=('sock', b is not None, len(header), abort), root=('sock', pre, bl, eol, split, abort), nontrivial=('sock', pre, bl, eol, split, abort))
-        tag = 'send-fails' if abort else 'split' if split is not None else 'whole'
+        tag = 'send-fails' if abort else 'volume' if isinstance(split, tuple) or len(raw) > 2000 else 'split' if split is not None else 'whole'
         if b is None:
             st.violation('socket:%s:banner-not-found' % tag, {'pre': pre, 'banner': bl, 'eol': eol, 'split': split, 'err': err, 'header': header})
             continue
